@@ -621,6 +621,11 @@ class _State:
                         a = [ev(x) for x in body.args]
                         k = {kw.arg: ev(kw.value) for kw in body.keywords}
                         ex["ref"] = canon(tool_fns[body.func.id](*a, **k))
+                    elif isinstance(body, ast.Call) and isinstance(body.func, ast.Name) and body.func.id in tool_fns:
+                        # star / double-star arguments: Python's evaluation of the whole text, the tool bound to its name
+                        env = dict(M.Mitochondria.SAFE_FUNCTIONS)
+                        env[body.func.id] = tool_fns[body.func.id]
+                        ex["ref"] = canon(eval(compile(src, "<ref>", "eval"), {"__builtins__": {}}, env))
                 except SyntaxError:
                     ex["ref"] = None
                     ex["ref_raise"] = "SyntaxError"
